@@ -1,11 +1,14 @@
 package main
 
 import (
-	"fmt"
 	"sort"
+	"strings"
 )
 
 // Fixpoint driver of the bounds prover, generic over the two front ends.
+// Iteration strategy: recursive (Bourdoncle): every natural loop is stabilised
+// - starting from scratch - each time control reaches its head from outside, so
+// that inner invariants are always computed relative to the current outer state.
 
 type bndProg interface {
 	numBlocks() int
@@ -59,21 +62,20 @@ func (c *collector) check(kind, site, pos, desc string, holds bool, diag func() 
 var debugReach func(b int, ins []*AbsState)
 
 type bndResult struct {
-	rounds   int
-	lp       int
-	heads    map[int]*tmplHead
-	reached  map[int]bool
-	maxDisj  int
-	coll     *collector
-	trouble  string
-	hullLP   int
+	rounds  int // total number of loop-head iterations
+	lp      int
+	heads   map[int]*tmplHead
+	reached map[int]bool
+	maxDisj int
+	coll    *collector
+	trouble string
+	hullLP  int
 }
 
 const maxDisjuncts = 8
 
 func runBnd(p bndProg, hc *hullCtx, coll *collector, incs func(head int, back []*AbsState, hd *tmplHead) (map[string][2]Q, map[string][2]bool)) *bndResult {
 	n := p.numBlocks()
-	// reverse postorder
 	order := make([]int, 0, n)
 	seen := make([]bool, n)
 	var dfs func(b int)
@@ -107,9 +109,34 @@ func runBnd(p bndProg, hc *hullCtx, coll *collector, incs func(head int, back []
 			}
 		}
 	}
+	// natural loop bodies
+	body := map[int]map[int]bool{}
+	for _, h := range order {
+		if !isHead[h] {
+			continue
+		}
+		bd := map[int]bool{h: true}
+		var stack []int
+		for _, pk := range preds[h] {
+			if rpo[pk[0]] >= rpo[h] && !bd[pk[0]] {
+				bd[pk[0]] = true
+				stack = append(stack, pk[0])
+			}
+		}
+		for len(stack) > 0 {
+			x := stack[len(stack)-1]
+			stack = stack[:len(stack)-1]
+			for _, pk := range preds[x] {
+				if !bd[pk[0]] && rpo[pk[0]] >= 0 {
+					bd[pk[0]] = true
+					stack = append(stack, pk[0])
+				}
+			}
+		}
+		body[h] = bd
+	}
 	edgeOut := make([][][]*AbsState, n)
 	res := &bndResult{heads: hc.heads, reached: map[int]bool{}, coll: coll}
-	ratioDone := map[int]bool{}
 	inStates := func(b int) []*AbsState {
 		var ins []*AbsState
 		if b == p.entryBlock() {
@@ -133,123 +160,150 @@ func runBnd(p bndProg, hc *hullCtx, coll *collector, incs func(head int, back []
 		}
 		return ins
 	}
-	dirty := make([]bool, n)
-	for i := range dirty {
-		dirty[i] = true
-	}
-	executed := make([]bool, n)
-	pass := func(check bool) bool {
-		changed := false
-		ranNow := make([]bool, n)
-		for _, b := range order {
-			// a block must be re-executed when one of its predecessors was re-executed since
-			need := dirty[b] || check
-			for _, pk := range preds[b] {
-				if ranNow[pk[0]] || (rpo[pk[0]] >= rpo[b] && dirty[pk[0]]) {
-					need = true
+	mergeJoin := func(b int, ins []*AbsState) []*AbsState {
+		if len(ins) <= maxDisjuncts {
+			return ins
+		}
+		// too many disjuncts: merge per predecessor (trace partitioning by incoming edge); computed afresh
+		// second criterion: which variables hold constants (a state with anchor = 0 is kept apart from
+		// states where it is symbolic: their union is usually not convex)
+		type gkey struct {
+			from int
+			sig  string
+		}
+		groups := map[gkey][]*AbsState{}
+		var keys []gkey
+		var live map[string]bool
+		if hc.liveAt != nil {
+			live = hc.liveAt(b)
+		}
+		for _, in := range ins {
+			var cs []string
+			for k, v := range in.vals {
+				if v.isConst() && (live == nil || live[k]) && !strings.HasPrefix(k, "$") {
+					cs = append(cs, k+"="+v.k.String())
 				}
 			}
-			if !need && executed[b] {
+			sort.Strings(cs)
+			gk := gkey{in.from, strings.Join(cs, ",")}
+			if _, ok := groups[gk]; !ok {
+				keys = append(keys, gk)
+			}
+			groups[gk] = append(groups[gk], in)
+		}
+		sort.Slice(keys, func(i, j int) bool {
+			if keys[i].from != keys[j].from {
+				return keys[i].from < keys[j].from
+			}
+			return keys[i].sig < keys[j].sig
+		})
+		var merged []*AbsState
+		l0 := lpCount
+		for gi, k := range keys {
+			g := groups[k]
+			if len(g) == 1 {
+				merged = append(merged, g[0])
+				continue
+			}
+			key := b + (k.from+2)*100000 + (gi+1)*10000000
+			delete(hc.heads, key)
+			st := hc.hull(key, b, g, false)
+			st.from = k.from
+			merged = append(merged, st)
+		}
+		res.hullLP += lpCount - l0
+		return merged
+	}
+	exec := func(b int, ins []*AbsState, check bool) {
+		res.reached[b] = true
+		if len(ins) > res.maxDisj {
+			res.maxDisj = len(ins)
+		}
+		if check && debugReach != nil {
+			debugReach(b, ins)
+		}
+		outs := make([][]*AbsState, len(p.succs(b)))
+		for _, in := range ins {
+			o := p.transfer(b, in.clone(), check)
+			for k := range o {
+				if k < len(outs) {
+					outs[k] = append(outs[k], o[k]...)
+				}
+			}
+		}
+		edgeOut[b] = outs
+	}
+	var runRegion func(region []int, top int, check bool)
+	var stabilize func(h int, check bool)
+	regionOf := func(h int) []int {
+		var r []int
+		for _, b := range order {
+			if body[h][b] {
+				r = append(r, b)
+			}
+		}
+		return r
+	}
+	runRegion = func(region []int, top int, check bool) {
+		done := map[int]bool{}
+		for _, b := range region {
+			if done[b] || b == top {
+				continue
+			}
+			if isHead[b] {
+				stabilize(b, check)
+				for x := range body[b] {
+					done[x] = true
+				}
 				continue
 			}
 			ins := inStates(b)
 			if len(ins) == 0 {
-				if edgeOut[b] != nil {
-					ranNow[b] = true
-				}
 				edgeOut[b] = nil
-				dirty[b] = false
 				continue
 			}
-			res.reached[b] = true
-			if len(ins) > res.maxDisj {
-				res.maxDisj = len(ins)
-			}
-			if isHead[b] {
-				var before string
-				hadHead := hc.heads[b] != nil
-				if hadHead {
-					before = hc.heads[b].sig()
-				}
-				l0 := lpCount
-				st := hc.hull(b, b, ins, !check)
-				res.hullLP += lpCount - l0
-				after := hc.heads[b].sig()
-				if before != after {
-					changed = true
-				} else if hadHead && executed[b] && !check {
-					// same abstract input as last time: outputs are unchanged
-					dirty[b] = false
-					continue
-				}
-				st.from = -1
-				ins = []*AbsState{st}
-			} else if len(ins) > maxDisjuncts {
-				// too many disjuncts at a join: merge per predecessor (trace partitioning by incoming edge)
-				groups := map[int][]*AbsState{}
-				var keys []int
-				for _, in := range ins {
-					if _, ok := groups[in.from]; !ok {
-						keys = append(keys, in.from)
-					}
-					groups[in.from] = append(groups[in.from], in)
-				}
-				sort.Ints(keys)
-				var merged []*AbsState
-				l0 := lpCount
-				for _, k := range keys {
-					g := groups[k]
-					if len(g) == 1 {
-						merged = append(merged, g[0])
-						continue
-					}
-					st := hc.hull(b+(k+2)*100000, b, g, false)
-					st.from = k
-					merged = append(merged, st)
-				}
-				res.hullLP += lpCount - l0
-				ins = merged
-			}
-			if check && debugReach != nil {
-				debugReach(b, ins)
-			}
-			outs := make([][]*AbsState, len(p.succs(b)))
-			for _, in := range ins {
-				o := p.transfer(b, in.clone(), check)
-				for k := range o {
-					if k < len(outs) {
-						outs[k] = append(outs[k], o[k]...)
-					}
-				}
-			}
-			edgeOut[b] = outs
-			executed[b] = true
-			ranNow[b] = true
-			dirty[b] = false
+			exec(b, mergeJoin(b, ins), check)
 		}
-		// blocks re-executed late in the order may feed earlier ones (back edges)
-		for _, b := range order {
-			for _, pk := range preds[b] {
-				if ranNow[pk[0]] && rpo[pk[0]] >= rpo[b] {
-					dirty[b] = true
-					changed = true
-				}
-			}
-		}
-		return changed
 	}
-	for round := 0; round < 60; round++ {
-		res.rounds++
-		ch := pass(false)
-		// ratio directions for loop heads once back-edge states exist
-		if incs != nil {
-			for _, b := range order {
-				if !isHead[b] || ratioDone[b] || hc.heads[b] == nil {
-					continue
-				}
+	stabilize = func(h int, check bool) {
+		loop := regionOf(h)
+		if !check {
+			delete(hc.heads, h)
+			// forget states of a previous visit
+			for _, b := range loop {
+				edgeOut[b] = nil
+			}
+		}
+		ratioDone := false
+		for iter := 0; iter < 40; iter++ {
+			ins := inStates(h)
+			if len(ins) == 0 {
+				edgeOut[h] = nil
+				return
+			}
+			var before string
+			if hd := hc.heads[h]; hd != nil {
+				before = hd.sig()
+			}
+			l0 := lpCount
+			st := hc.hull(h, h, ins, !check)
+			res.hullLP += lpCount - l0
+			res.rounds++
+			st.from = -1
+			if check {
+				exec(h, []*AbsState{st}, true)
+				runRegion(loop, h, true)
+				return
+			}
+			if iter > 0 && hc.heads[h].sig() == before {
+				return
+			}
+			exec(h, []*AbsState{st}, false)
+			runRegion(loop, h, false)
+			if incs != nil && !ratioDone {
 				var back []*AbsState
-				for _, pk := range preds[b] {
-					if rpo[pk[0]] >= rpo[b] && edgeOut[pk[0]] != nil && pk[1] < len(edgeOut[pk[0]]) {
+				for _, pk := range preds[h] {
+					if rpo[pk[0]] >= rpo[h] && edgeOut[pk[0]] != nil && pk[1] < len(edgeOut[pk[0]]) {
 						for _, s := range edgeOut[pk[0]][pk[1]] {
 							if s.st.feasible() {
 								back = append(back, s)
@@ -257,26 +311,19 @@ func runBnd(p bndProg, hc *hullCtx, coll *collector, incs func(head int, back []
 						}
 					}
 				}
-				if len(back) == 0 {
-					continue
-				}
-				ratioDone[b] = true
-				im, fm := incs(b, back, hc.heads[b])
-				before := len(hc.heads[b].dirs)
-				hc.addRatioDirs(b, im, fm)
-				if len(hc.heads[b].dirs) != before {
-					ch = true
+				if len(back) > 0 {
+					ratioDone = true
+					im, fm := incs(h, back, hc.heads[h])
+					hc.addRatioDirs(h, im, fm)
 				}
 			}
-		}
-		if !ch {
-			break
-		}
-		if round == 59 {
-			res.trouble = "fixpoint not reached in 60 rounds"
+			if iter == 39 {
+				res.trouble = "loop at " + p.blockName(h) + " did not stabilise in 40 iterations"
+			}
 		}
 	}
-	pass(true)
+	runRegion(order, -1, false)
+	runRegion(order, -1, true)
 	res.lp = lpCount
 	return res
 }
@@ -333,6 +380,5 @@ func defaultIncs(head int, back []*AbsState, hd *tmplHead) (map[string][2]Q, map
 		incs[k] = [2]Q{lo, hi}
 		fin[k] = [2]bool{loF, hiF}
 	}
-	_ = fmt.Sprint
 	return incs, fin
 }
